@@ -27,7 +27,8 @@ CFLAGS = ["-O1", "-g", "-fsanitize=address,undefined", "-fno-sanitize-recover=al
 
 ALLOWED_AXIOMS = {"propext", "Classical.choice", "Quot.sound"}
 FORBIDDEN = [r"\bsorry\b", r"\badmit\b", r"^\s*axiom\s", r"\bnative_decide\b", r"\bbv_decide\b",
-             r"\bimplemented_by\b", r"\bunsafe\s", r"maxHeartbeats\s+0\b"]
+             r"\bimplemented_by\b", r"\bunsafe\s", r"maxHeartbeats\s+0\b", r"@\[\s*extern\b", r"debug\.skipKernelTC",
+             r"\bopaque\s+\w+.*:=\s*sorry", r"set_option\s+(?:debug\.|trace\.).*skip"]
 
 
 def log(*a):
@@ -219,11 +220,20 @@ def run_c(exe, lines, timeout=40, valgrind=False):
 
 
 def run_lean(container, lines, timeout=300):
-    try:
-        r = subprocess.run([str(driver_path(container))], input="\n".join(lines) + "\n", stdout=subprocess.PIPE,
-                           stderr=subprocess.PIPE, text=True, timeout=max(timeout, int(60 + 0.05 * len(lines))))
-    except subprocess.TimeoutExpired:
-        raise RuntimeError(f"lean driver for {container} timed out on {len(lines)} lines")
+    r = None
+    for attempt in range(6):
+        try:
+            r = subprocess.run([str(driver_path(container))], input="\n".join(lines) + "\n", stdout=subprocess.PIPE,
+                               stderr=subprocess.PIPE, text=True, timeout=max(timeout, int(60 + 0.05 * len(lines))))
+            break
+        except subprocess.TimeoutExpired:
+            raise RuntimeError(f"lean driver for {container} timed out on {len(lines)} lines")
+        except OSError as e:
+            # a concurrent `lake build` of another check relinks the driver: wait for it under the lock and retry
+            if attempt == 5:
+                raise RuntimeError(f"lean driver for {container} cannot be started: {e}")
+            with Lock("lake"):
+                time.sleep(0.5)
     out = r.stdout.split("\n")
     if out and out[-1] == "":
         out.pop()
@@ -233,12 +243,15 @@ def run_lean(container, lines, timeout=300):
 # --------------------------------------------------------------------------- diffing
 
 EXACT_ST = {"0", "1", "4", "9", "-"}
+REJ_ST = {"2", "3", "6", "7", "8"}   # INVALID_CAPACITY, INVALID_RANGE, KEY_NOT_FOUND, VALUE_NOT_FOUND, OUT_OF_RANGE
 
 
 def norm_obs(obs):
-    """L1 normal form: status codes other than OK/ALLOC/MAX_CAPACITY/ITER_END are one class"""
+    """L1 normal form: the five documented rejection codes are one class "rejected" (the properties say
+    "rejected", not which code; the library's own documentation and code disagree on KEY/VALUE_NOT_FOUND in places);
+    OK/ALLOC/MAX_CAPACITY/ITER_END and every token that is not a documented status code are compared exactly"""
     def f(m):
-        return m.group(0) if m.group(1) in EXACT_ST else "st=rej"
+        return "st=rej" if m.group(1) in REJ_ST else m.group(0)
     return re.sub(r"\bst=(\S+)", f, obs.strip())
 
 
@@ -279,13 +292,15 @@ def compare_history(hidx, ops, c_lines, s_lines, m_lines, crash, opts):
         if cl == "C #":
             continue
         cs = sections(cl)
+        if re.search(r"\bbadop\b", cs[0]):
+            diffs.append(Diff("unknown-op", hidx, i, op, "the harness does not know this operation: " + cl[:120], "L0"))
         ss = sections(s_lines[i]) if i < len(s_lines) else None
         ms = sections(m_lines[i]) if i < len(m_lines) else None
         mf = mem_fields(cs[2])
         # ---- L2: C alone
         if mf is None:
             diffs.append(Diff("protocol", hidx, i, op, "bad mem section: " + cl, "L2"))
-            break
+            continue
         if "err=" in mf["rest"]:
             diffs.append(Diff("ledger", hidx, i, op, mf["rest"], "L2"))
         if "absurd=" in mf["rest"]:
@@ -301,7 +316,10 @@ def compare_history(hidx, ops, c_lines, s_lines, m_lines, crash, opts):
         if st == "1" and mf["r"] == 0 and "absurd=" not in mf["rest"]:
             diffs.append(Diff("spurious-alloc-error", hidx, i, op, cs[0][:80], "L2"))
         ll = re.search(r"llive=(\d+)", mf["rest"])
-        if opname == "destroy" and (mf["live"] != 0 or (ll and int(ll.group(1)) != 0)) and not opts.get("multi", False):
+        # sessions with several objects: `destroy` releases every slot in all shims, so the test applies to the FINAL
+        # destroy of the history (a `drop o=k` in between leaves the other objects alive and is exempt)
+        if opname in ("destroy", "destroy_cb") and (mf["live"] != 0 or (ll and int(ll.group(1)) != 0)) \
+                and (not opts.get("multi", False) or i == len(ops) - 1):
             diffs.append(Diff("leak", hidx, i, op, f"live={mf['live']} {ll.group(0) if ll else ''} after destroy", "L2"))
         # ---- L1: C vs spec
         if ss is not None and not s_lines[i].startswith("S ?"):
@@ -318,8 +336,9 @@ def compare_history(hidx, ops, c_lines, s_lines, m_lines, crash, opts):
                     diffs.append(Diff("model-" + name, hidx, i, op, f"C: {a}  !=  M: {b}", "L3"))
             if ms[3] and ms[3] != "inv=1 fault=0":
                 diffs.append(Diff("model-flags", hidx, i, op, ms[3], "L3"))
-    if crash and not any(d.kind == "crash" for d in diffs) and len(c_lines) < len(ops):
-        diffs.append(Diff("crash", hidx, len(c_lines), ops[len(c_lines)], crash, "L2"))
+    if crash and not any(d.kind == "crash" for d in diffs):
+        at = min(len(c_lines), len(ops) - 1) if ops else 0
+        diffs.append(Diff("crash", hidx, at, ops[at] if ops else "", crash, "L2"))
     return diffs
 
 
@@ -328,9 +347,6 @@ def summarize_crash(stderr):
     if m:
         return m.group(1)[:200]
     return (stderr.strip().split("\n") or ["crash"])[-1][:200]
-
-
-_W64 = re.compile(r"(?<![\w.])\d{20,}(?![\w.])")
 
 
 class Runner:
@@ -352,17 +368,17 @@ class Runner:
         self.samples = []
         self.model_lines = 0
         self.hooks = []       # functions (hist_index, ops, c_lines) -> [Diff]
+        self.n_limited = 0    # histories dropped because they exceed a limit of the harness itself (exit code 3)
+        self.limit_msgs = set()
+        self.spec_lines = 0
         self.timeout = 40
 
     def run(self, histories):
         """histories: list of list[str] (each starts with its constructor, the runner adds `reset`).
         returns list of (hist_index, [Diff])"""
-        # the line protocol carries 64-bit words: a generator that simulated `v + 1000` without wrap-around would
-        # otherwise hand the C side (strtoull saturates) and the Lean side (unbounded Nat) different numbers
-        histories = [[_W64.sub(lambda m: str(int(m.group(0)) % 2 ** 64), op) if _W64.search(op) else op for op in h]
-                     for h in histories]
         pending = list(range(len(histories)))
         self.skipped = set()
+        self.limited = {}
         c_out = {}
         crash = {}
         while pending:
@@ -395,7 +411,12 @@ class Runner:
                         out, rc, err = o2, rc2, err2
                         lo = 0
                     c_out[h] = out[lo + 1:] if len(out) > lo else []
-                    crash[h] = summarize_crash(err) if rc != 0 else "truncated output"
+                    if rc == 3:
+                        # exit(3) is the harness's own "this history exceeds a table/buffer of the harness" exit
+                        # (ledger full, output line too long, backing allocator exhausted): says nothing about the library
+                        self.limited[h] = (err.strip().split("\n") or ["?"])[-1][:120]
+                    else:
+                        crash[h] = summarize_crash(err) if rc != 0 else "truncated output"
                     nxt = pending[k + 1:]
                     break
             else:
@@ -427,6 +448,10 @@ class Runner:
         results = []
         for h, ops in enumerate(histories):
             if h in self.skipped:
+                continue
+            if h in self.limited:
+                self.n_limited += 1
+                self.limit_msgs.add(self.limited[h])
                 continue
             lo = bounds[h] + 1
             s_lines = [lout[2 * (lo + i)] for i in range(len(ops))]
@@ -468,7 +493,8 @@ class Runner:
         return dict(container=self.container, histories=self.n_hist, operations=self.n_ops,
                     distinct_op_status_layout=len(self.distinct), op_histogram=self.op_hist,
                     status_histogram=self.st_hist, refusals_fired=self.refusals_fired,
-                    model_lines_compared=self.model_lines)
+                    model_lines_compared=self.model_lines, histories_beyond_harness_limits=self.n_limited,
+                    harness_limit_messages=sorted(self.limit_msgs))
 
 
 # --------------------------------------------------------------------------- shrinking
